@@ -233,7 +233,8 @@ def coqchk(prop):
     if m:
         axioms = " ".join(m.group(1).split())
     c = {"key": key, "rc": rc, "axioms": axioms, "wall_s": round(time.time() - t0, 1), "tail": out[-600:]}
-    write_json(cache, c)
+    if c.get("rc") == 0:      # a failed or timed-out run must not be replayed from the cache
+        write_json(cache, c)
     log("coqchk %s: rc=%d axioms=%s (%.0fs)" % (prop, rc, axioms, time.time() - t0))
     return c
 
@@ -365,12 +366,18 @@ def sweep_family(fam, bins, modelrun, mismatches):
         cmd = [bins[prof], "sweep"] + fam["sweep"] + ["--expect", fam["expect"], "--threads", str(NPROC)]
         if fam.get("blank_case"):
             # the constant for cases holding a blank is read off the model on one such case
-            mb = subprocess.run(["bash", "-c", "ulimit -s unlimited; exec \"$@\"", "x", modelrun, "--chk", "1" if prof == "chk" else "0"],
-                                input=fam["blank_case"] + "\n", stdout=subprocess.PIPE, text=True, timeout=1800)
+            try:
+                mb = subprocess.run(["bash", "-c", "ulimit -s unlimited; exec \"$@\"", "x", modelrun, "--chk", "1" if prof == "chk" else "0"],
+                                    input=fam["blank_case"] + "\n", stdout=subprocess.PIPE, text=True, timeout=1800)
+            except subprocess.TimeoutExpired:
+                raise Broken("runner", "modelrun gave no line for the blank case within 1800 s")
             if mb.returncode != 0 or not mb.stdout.strip():
                 raise Broken("runner", "modelrun gave no line for the blank case %s" % fam["blank_case"])
             cmd += ["--expect-blank", mb.stdout.strip()]
-        r = subprocess.run(cmd, stdout=subprocess.PIPE, stderr=subprocess.PIPE, text=True)
+        try:
+            r = subprocess.run(cmd, stdout=subprocess.PIPE, stderr=subprocess.PIPE, text=True, timeout=14400)
+        except subprocess.TimeoutExpired:
+            raise Broken("runner", "%s: no result within 4 h" % " ".join(cmd))
         if r.returncode not in (0, 3):
             raise Broken("runner", "%s: %s" % (" ".join(cmd), r.stderr[-2000:]))
         bad = []
@@ -385,13 +392,18 @@ def sweep_family(fam, bins, modelrun, mismatches):
                 total = int(l.split()[1])
                 fam_mis += int(l.split()[3])
                 swept_seen = True
+        if r.returncode == 3 and not bad:
+            raise Broken("runner", "%s: exit status 3 (watchdog) without a HANG line" % " ".join(cmd))
         if r.returncode == 0:
             want = sweep_domain_size(fam["sweep"])
             if not swept_seen or total <= 0 or (want is not None and total != want):
                 raise Broken("runner", "%s: swept %s cases, expected %s" % (" ".join(cmd), total if swept_seen else "no SWEPT line", want))
         if bad:
-            mr = subprocess.run(["bash", "-c", "ulimit -s unlimited; exec \"$@\"", "x", modelrun, "--chk", "1" if prof == "chk" else "0"],
-                                input="\n".join(c for c, _ in bad) + "\n", stdout=subprocess.PIPE, text=True, timeout=1800)
+            try:
+                mr = subprocess.run(["bash", "-c", "ulimit -s unlimited; exec \"$@\"", "x", modelrun, "--chk", "1" if prof == "chk" else "0"],
+                                    input="\n".join(c for c, _ in bad) + "\n", stdout=subprocess.PIPE, text=True, timeout=1800)
+            except subprocess.TimeoutExpired:
+                raise Broken("runner", "modelrun did not answer on the cases a sweep reported within 1800 s")
             if mr.returncode != 0:
                 raise Broken("runner", "modelrun failed on the cases a sweep reported")
             mout = mr.stdout.splitlines()
@@ -421,10 +433,11 @@ def sweep_family(fam, bins, modelrun, mismatches):
             "wall_s": round(time.time() - t0, 2)}
 
 
-def correspondence(prop, fams, bins, modelrun, work):
-    """run every family on the implementation and on the model; return (stats, mismatches)"""
-    stats = []
-    mismatches = []
+def correspondence(prop, fams, bins, modelrun, work, stats=None, mismatches=None):
+    """run every family on the implementation and on the model; return (stats, mismatches). The two lists may be
+    passed in, so that what was found survives a Broken raised by a later family."""
+    stats = [] if stats is None else stats
+    mismatches = [] if mismatches is None else mismatches
     os.makedirs(work, exist_ok=True)
     for fam in fams:
         t0 = time.time()
@@ -615,6 +628,7 @@ def main(argv):
     evidence_path = os.path.join(ROOT, "evidence", prop + ".json")
     broken = []       # (stage, detail)
     stats, mismatches, drift = [], [], []
+    modelrun = None
     names = theorem_names(prop)
     discharged = 0
     assumptions = {}
@@ -656,7 +670,11 @@ def main(argv):
                 pass
             rng = inputs.Rng(seed)
             fams = spec["families"](rng, tier)
-            stats, all_mis = correspondence(prop, fams, bins, modelrun, os.path.join(BUILD, "work", prop))
+            all_mis = []
+            try:
+                correspondence(prop, fams, bins, modelrun, os.path.join(BUILD, "work", prop), stats, all_mis)
+            except Broken as b:
+                broken.append((b.stage, b.detail))
             # families marked `beyond` compare behaviour the property does not fix: a difference there is model drift, recorded
             # in the evidence, and no verdict
             drift = [m for m in all_mis if m.get("beyond")]
@@ -687,7 +705,7 @@ def main(argv):
                       "expected": m["model"], "actual": m["implementation"]} for m in mismatches if m.get("pinned")]
         if not found and any(st == "proof" for st, _ in broken):
             try:
-                found += model_search(prop, bins, build_model())
+                found += model_search(prop, bins, modelrun or build_model())
             except Broken:
                 pass
         if len(found) < 3 and bins:
